@@ -1609,11 +1609,12 @@ class _NP(StandIn):
 class _CurveP(StandIn):
     """closed chain of quadratic pieces; `p in curve` for its control end points"""
 
-    def __init__(self, name, ends):
+    def __init__(self, name, ends, mids=None):
         self.name = name
         n = len(ends)
+        mids = mids or {}
         self.segments = tuple(Obj(f"{name}s{i}", degree=2, npts=3,
-                                  ctrlpoints=(ends[i], _NP(f"{name}m{i}"), ends[(i + 1) % n])) for i in range(n))
+                                  ctrlpoints=(ends[i], mids.get(i, _NP(f"{name}m{i}")), ends[(i + 1) % n])) for i in range(n))
         vs = []
         for sg in self.segments:
             for pnt in sg.ctrlpoints:
@@ -1643,15 +1644,22 @@ def r01_7(ctx):
     # the crossings as the second curve stores them: the same points, their coordinates a rounding error apart
     X2, Y2 = _NP("X", (1.0 + 2e-13, 2.0)), _NP("Y", (2.0, 1.0 - 2e-13))
     J0 = _CurveP("J0", [P0, X, P1, Y])            # pieces P0-X, X-P1, P1-Y, Y-P0
-    J1 = _CurveP("J1", [X2, Y2, Q0])              # pieces X-Y, Y-Q0, Q0-X
+    # ... and the corner P1 of the first curve is where the middle control point of the arc Q0-X of the second one sits
+    # (a rounded corner drawn over the sharp one): a control point off the curve is no junction
+    J1 = _CurveP("J1", [X2, Y2, Q0], mids={2: _NP("P1", (3.0, 3.0))})              # pieces X-Y, Y-Q0, Q0-X
     cases = [((0, 1), ((0, 1), (0, 2), (1, 1), (1, 2))), ((1, 1), ((1, 1), (1, 2), (0, 1), (0, 2))),
              ((0, 5), ((0, 1), (0, 2), (1, 1), (1, 2))),          # the start index wraps around
              ((1, 0), ((1, 0), (0, 3), (0, 0)))]                  # the other cycle: X-Y on J1, then Y-P0, P0-X on J0
     for (a, b), want in cases:
         try:
             got = Runner(ctx, set(), None).call_fn(fn, [a, b, (J0, J1)])
-        except (Undecided, Raised) as ex:
+        except Undecided as ex:
             out.undecided(fn.qname, f"start ({a}, {b}): {ex}", where=fn.where())
+            continue
+        except Raised as ex:
+            out.bad(fn.qname, "following the chain of boundary pieces raises", where=fn.where(),
+                    detail=f"start ({a}, {b}) on curves P0-X-P1-Y and X-Y-Q0 (quadratic pieces; P1 is also the middle control "
+                           f"point of the arc Q0-X): {ex.what}")
             continue
         got = tuple(tuple(x) for x in got)
         if got == want:
